@@ -227,13 +227,15 @@ class RealModel:
         raise ValueError(act)
 
 
-def state_matches(spec_state, proj):
-    """compare the projection of the real object with the spec state"""
+def state_matches(spec_state, proj, one_none=False):
+    """compare the projection of the real object with the spec state;
+    one_none: the two kinds of "no value" (reset / never known) are one"""
     diffs = []
     if sorted(spec_state['built']) != proj['built']:
         diffs.append(('built', sorted(spec_state['built']), proj['built']))
+    plain = (lambda x: ['?'] if x == ['?!'] else x) if one_none else (lambda x: x)
     for n, v in (spec_state['cache'] if isinstance(spec_state['cache'], dict) else {}).items():
-        if proj['cache'].get(n) != v:
+        if plain(proj['cache'].get(n)) != plain(v):
             diffs.append(('cache', n, v, proj['cache'].get(n)))
     if sorted(map(tuple, spec_state['edges'])) != sorted(map(tuple, proj['edges'])):
         diffs.append(('edges', sorted(map(tuple, spec_state['edges'])),
